@@ -164,15 +164,20 @@ def run_chunk(args):
 
 
 def violates(mod, scn, invariant):
-    try:
-        res = execute(mod, scn)
-    except OpTimeout:
-        return None
-    except Exception:
-        return None
-    for v in res["violations"]:
-        if v["invariant"] == invariant:
-            return res, v
+    """(result, violation item) if executing scn violates `invariant`, else None.
+    Invariants a module lists in FLAKY_INVARIANTS state that the *library* is not
+    reproducible; by nature they may need more than one execution to show."""
+    attempts = 5 if invariant in getattr(mod, "FLAKY_INVARIANTS", ()) else 1
+    for _ in range(attempts):
+        try:
+            res = execute(mod, scn)
+        except OpTimeout:
+            return None
+        except Exception:
+            return None
+        for v in res["violations"]:
+            if v["invariant"] == invariant:
+                return res, v
     return None
 
 
@@ -387,11 +392,29 @@ def run_check(prop, tier, verif_seed, workers=None, runs=None, budget_s=None):
     known = load_known()
     known_hit = []
     reported = []
+    reported_nd = None
 
     if det["mismatches"]:
         # C14's last clause *is* reproducibility; a nondeterministic library run is its violation
-        if prop == "C14" and hasattr(mod, "nondeterminism_violation"):
-            viols.append(mod.nondeterminism_violation(generate(mod, prop, verif_seed, nondet[0], tier)))
+        nd_ok = False
+        if getattr(mod, "NONDETERMINISM_IS_VIOLATION", False):
+            # this property's statement includes reproducibility under a fixed seed
+            i0 = sorted(set(nondet))[0]
+            scn0 = generate(mod, prop, verif_seed, i0, tier)
+            rd = os.environ.get("VERIF_REPLAY_DIR") or os.path.join(VERIF_DIR, "replays")
+            os.makedirs(rd, exist_ok=True)
+            path = os.path.join(rd, f"{prop}-nondeterminism-{i0}.json")
+            with open(path, "w") as f:
+                json.dump({"property": prop, "kind": "nondeterminism", "invariant": f"{prop}.reproducible_across_runs",
+                           "scenario": scn0, "detail": "the same scenario gives different results in repeated executions / "
+                           "fresh interpreters / hash seeds", "found_at": {"verif_seed": verif_seed, "index": i0, "tier": tier}}, f, indent=1)
+            rc, out = replay_fresh(path)
+            if rc == 1 and "REPRODUCED" in out:
+                nd_ok = True
+                reported_nd = {"invariant": f"{prop}.reproducible_across_runs", "replay": path,
+                               "detail": f"run index {i0} is not reproducible", "runs": len(set(nondet))}
+        if nd_ok:
+            pass
         else:
             print(f"HARNESS-ERROR nondeterminism: run indices {sorted(set(nondet))[:10]} differ between executions")
             exit_code = 2
@@ -458,12 +481,15 @@ def run_check(prop, tier, verif_seed, workers=None, runs=None, budget_s=None):
         with open(path, "w") as f:
             json.dump(rep, f, indent=1, sort_keys=True)
         rc, out = replay_fresh(path)
-        if rc != 1 or "REPRODUCED" not in out or "digest_match=True" not in out:
+        flaky = inv in getattr(mod, "FLAKY_INVARIANTS", ())
+        if rc != 1 or "REPRODUCED" not in out or ("digest_match=True" not in out and not flaky):
             print(f"HARNESS-ERROR unreplayable: {inv} replay file {path} did not reproduce in a fresh interpreter (rc={rc})")
             exit_code = max(exit_code, 2)
             continue
         reported.append({"invariant": inv, "replay": path, "detail": item2.get("detail"), "runs": len(lst)})
 
+    if reported_nd is not None:
+        reported.append(reported_nd)
     if reported and exit_code in (0, 1):
         exit_code = 1
         for r in reported:
@@ -526,6 +552,29 @@ def cmd_replay(path, quiet=False):
     except Exception:
         print("HARNESS-ERROR import: " + traceback.format_exc()[-1500:])
         return 2
+    if rep.get("kind") == "nondeterminism":
+        digs = [execute(mod, json.loads(json.dumps(rep["scenario"])))["digest"] for _ in range(3)]
+        if not os.environ.get("SIMKIT_NO_FRESH"):
+            for hs in ("0", "31337", "99"):
+                env = dict(os.environ)
+                env.pop("SIMKIT_REEXEC", None)
+                env.pop("PYTHONHASHSEED", None)
+                env["VERIF_HASHSEED"] = hs
+                env["SIMKIT_NO_FRESH"] = "1"
+                p = subprocess.run([_python(), os.path.join(VERIF_DIR, "check.py"), "replay", path, "--quiet"],
+                                   env=env, capture_output=True, text=True, timeout=600, cwd=VERIF_DIR)
+                digs += [ln.split("=", 1)[1] for ln in p.stdout.splitlines() if ln.startswith("SCN-DIGESTS=")]
+        else:
+            print("SCN-DIGESTS=" + ",".join(digs))
+            return 0
+        flat = {d for x in digs for d in x.split(",")}
+        if len(flat) > 1:
+            print(f"REPRODUCED property={prop} invariant={rep['invariant']} digest_match=n/a ({len(flat)} distinct digests)")
+            if not quiet:
+                print(f"VIOLATION property={prop} replay={path}")
+            return 1
+        print(f"NOT-REPRODUCED property={prop} invariant={rep['invariant']} (all executions agree)")
+        return 0
     got = violates(mod, rep["scenario"], rep["invariant"])
     if got is None:
         res = execute(mod, rep["scenario"])
